@@ -132,6 +132,20 @@ def run_rules(model, prop, tier, only=None):
         except Exception as e:  # checker bug / unsupported construct: analysis error, never a verdict
             tb = traceback.format_exc(limit=6)
             errors.append(f"[{rid}] internal error {type(e).__name__}: {e}\n{tb}")
+        # one root cause over many class descriptors: keep three representatives per (rule, anchor)
+        groups = {}
+        kept = []
+        for i in cx.insts:
+            if i.verdict == BAD and i.loc == "-":
+                g = groups.setdefault((i.rule, i.anchor), [])
+                g.append(i)
+                if len(g) > 3:
+                    continue
+            kept.append(i)
+        for g in groups.values():
+            if len(g) > 3:
+                g[0].detail += f" (+{len(g) - 3} more descriptors with the same rule and anchor)"
+        cx.insts = kept
         insts.extend(cx.insts)
         per_rule[rid] = {
             "title": title,
